@@ -148,11 +148,21 @@ prop('C19',
               'frames of the ownership analysis are syntactic: captured variables and the pointers held in them, not what is reachable beyond'],
      not_decided='the round trip itself (archive codecs archive/zip, archive/tar, compress/* are outside /repo); the on-disk state after a kill at an arbitrary point (no crash model in this family: what is proved is that the resume file only ever names an index below which every entry completed); symlink targets, modes')
 
+DIFFPIPE = [('/pwr', '(*DiffContext).WritePatch'), ('/pwr', 'CompressWire'), ('/ctxcopy', 'DoBuffer')]
+
+prop('C15',
+     functions=DIFFPIPE,
+     assumes=['A-SCHED: taskgroup.Do runs its function-literal arguments concurrently and returns after all of them (fork clause); the ownership frames are syntactic: captured variables and the pointers held in them',
+              'wsync.Context methods only touch their own receiver and what they are handed (their contracts: modifies of ComputeDiff / CreateSignature)',
+              'io.Pipe / multiread deliver the same byte sequence to both readers (outside the verified text)'],
+     not_decided='byte-for-byte determinism of the patch as one statement (it follows from: each consumer is a deterministic function of the byte sequence it reads -- sequential code, proved separately under C11/C04 -- and no state is shared between the tasks, which is what is proved here); the race detector\'s view of library internals (io.Pipe, sync.Pool); GOMAXPROCS; the bsdiff scanner goroutines (see C12)')
+
 # properties with a registered check
-CLAIMED = {'C19', 'C18', 'C04', 'C09', 'C17', 'C11', 'C08', 'C01', 'C10', 'C12', 'C07', 'C14', 'C13', 'C05', 'C16', 'C06'}
+CLAIMED = {'C15', 'C19', 'C18', 'C04', 'C09', 'C17', 'C11', 'C08', 'C01', 'C10', 'C12', 'C07', 'C14', 'C13', 'C05', 'C16', 'C06'}
 # reasons for properties not claimed (kept current)
 NOT_APPLICABLE = {}
 LEVEL_TEXT = {
+ 'C15': {'text': 'Proof of the function-level clauses: the three per-file tasks of WritePatch share no written variable and use different sync contexts and different wire contexts (ownership obligations over the fork group, pointer distinctness by SMT); the reader handed to the fan-out is the one of the file being diffed; the copy loop forwards every byte read, including bytes delivered together with io.EOF, and stops on cancellation.', 'design_ref': 'DESIGN.md §5 C15'},
  'C19': {'text': 'Proof of the function-level clauses: every variable shared by the extraction workers is accessed under the common mutex (ownership obligations over the fork group); the resume file is only written with an index below which every entry has completed (markDone invariant: nextIndex advances over a contiguous completed prefix); Mkdir creates the whole path (os.MkdirAll with the destination path, never os.Mkdir); the tar walk emits a header for every regular file other than the root, empty or not; ctxcopy.DoBuffer reports the bytes written and stops on cancellation.', 'design_ref': 'DESIGN.md §5 C19'},
  'C18': {'text': 'Proof (modular, unbounded in write slicing and sizes): drip.Write/Close keep the ghost relation between accepted, validated and forwarded bytes for every slicing; the validate closure advances the block index once per call and emits one wound per call; ValidateAsWound/AsError decide exactly healthyBlock and report the signed block range.', 'design_ref': 'DESIGN.md §5 C18, App. A.2'},
  'C09': {'text': 'Proof: every byte a safekeeper Read hands out without error is a byte of the signed file (validated block + aligned read), nothing beyond the signed length is handed out, io.EOF is only reported at the signed end, the verdict cache only remembers valid for blocks that are on disk unchanged, and an undamaged file is never rejected at any offset 0..S.', 'design_ref': 'DESIGN.md §5 C09'},
